@@ -311,6 +311,28 @@ PLAN = {
         ],
         "require_counters": {"all": ["grows", "rehashes_or_shrinks", "sequences"]},
     },
+    "C18": {
+        "level": "exploration",
+        "exhaustive": True,
+        "rule": "Circuit::simplify: exhaustive over all circuits with 1 gate x <=3 literals and 2 gates x <=2 literals for 0..3 inputs "
+                "(thorough also 2 gates x <=3 literals for 0..2 inputs, 3 gates x <=2 literals for 0 inputs), seeded samples of the "
+                "rest of the <=3/<=3/<=3 space and random circuits up to 8 inputs / 30 gates / 6 literals; alphabet = both constants, "
+                "every input, unknown inputs len, len+1, UNDEF, every gate incl. self and forward references, both polarities; every "
+                "gate and input as root. Oracle: own gate-list interpreter (truth tables), own cycle / unknown-input detection, the "
+                "five normal-form conditions checked literally, gate map consistency. Parsers: all truncations and seeded byte "
+                "mutations of DIMACS CNF/SAT, AIGER ascii/binary, NNF corpora under panic capture (overflow checks on); generated "
+                "AIGs written as aag and aig must parse to equal Problems and compute the generator's truth tables; CNF/SAT/NNF "
+                "semantic round trips. distinct = distinct circuits / distinct parser inputs by outcome.",
+        "assumptions": ["inputs announcing > 65536 elements are skipped in-process (host allocation aborts are inconclusive by definition)",
+                        "acceptance of every valid DIMACS file and correctness of decoded latch reset values are recorded as observations, not asserted (outside the property)"],
+        "jobs": [
+            {"monitor": "c18_simplify_exh", "variant": "rel", "shards": 16},
+            {"monitor": "c18_simplify_rand", "variant": "rel", "shards": 16},
+            {"monitor": "c18_parsers", "variant": "rel", "shards": 16},
+            {"monitor": "c18_parsers", "variant": "asan", "shards": 8, "tiers": ("thorough",)},
+        ],
+        "require_counters": {"all": ["circuits", "errors_cycle", "errors_unknown_input", "parser_inputs", "parser_errors", "aiger_roundtrips"]},
+    },
     "C08": {
         "level": "exploration",
         "exhaustive": True,
@@ -346,6 +368,14 @@ PLAN = {
 HOOK_COMMITS = []
 
 MANIFEST_TEXT = {
+    "C18": {
+        "text": "Held on every executed case: all small circuits of the enumerated sub-spaces and sampled larger ones are simplified "
+                "and compared by truth table, normal form and gate map; cyclic / unknown-input circuits must yield Err; millions of "
+                "truncated and mutated parser inputs must return Ok or a diagnostic; ASCII/binary AIGER twins must parse equal.",
+        "design_ref": "DESIGN.md section 5 / C18",
+        "note": "Trusted: circuit interpreter and file writers in harness/src/mon/c18.rs. The full <=3/<=3/<=3 circuit space (1.6e13) is sampled, sub-spaces are exhaustive.",
+        "technique": "runtime monitoring: truth-table oracle over exhaustively enumerated small circuits + mutation/truncation fuzzing under panic capture",
+    },
     "C16": {
         "text": "Held on every executed case: all call sequences up to length 5/6 on the name map against a Vec+HashMap model with every "
                 "lookup re-checked after every call; random unicode sequences; real managers of five kinds with handles, gc and "
